@@ -139,3 +139,89 @@ func (p *Program) runSelftest(opts checkOpts) ([]map[string]interface{}, error) 
 	}
 	return res, firstErr
 }
+
+type benignMeta struct {
+	ID         string   `json:"id"`
+	Kind       string   `json:"kind"`
+	File       string   `json:"file"`
+	Sed        string   `json:"sed"`
+	Patch      string   `json:"patch"`
+	Properties []string `json:"properties"`
+	Summary    string   `json:"summary"`
+}
+
+// runBenign applies each property-preserving rewrite of selftest/benign that
+// names the property to a scratch copy and requires the check to stay quiet.
+func (p *Program) runBenign(opts checkOpts) ([]map[string]interface{}, error) {
+	var res []map[string]interface{}
+	var firstErr error
+	self, _ := os.Executable()
+	files, _ := filepath.Glob(filepath.Join(verifDir, "selftest", "benign", "*.json"))
+	sort.Strings(files)
+	for _, f := range files {
+		data, err := os.ReadFile(f)
+		if err != nil {
+			continue
+		}
+		var m benignMeta
+		if json.Unmarshal(data, &m) != nil {
+			continue
+		}
+		want := false
+		for _, e := range m.Properties {
+			if e == opts.prop {
+				want = true
+			}
+		}
+		if !want {
+			continue
+		}
+		scratch, err := os.MkdirTemp(envOr("VERIF_SCRATCH", "/var/tmp"), "bipverif-benign-")
+		if err != nil {
+			return res, err
+		}
+		func() {
+			defer os.RemoveAll(scratch)
+			if out, err := exec.Command("rsync", "-a", "--exclude", ".git", p.RepoDir+"/", scratch+"/").CombinedOutput(); err != nil {
+				firstErr = fmt.Errorf("copy: %v %s", err, out)
+				return
+			}
+			var ed *exec.Cmd
+			if m.Kind == "patch" {
+				ed = exec.Command("patch", "-p1", "-s", "-i", filepath.Join(verifDir, "selftest", "benign", m.Patch))
+			} else {
+				ed = exec.Command("sed", "-i", "-E", m.Sed, m.File)
+			}
+			ed.Dir = scratch
+			before, _ := os.ReadFile(filepath.Join(scratch, m.File))
+			if out, err := ed.CombinedOutput(); err != nil {
+				res = append(res, map[string]interface{}{"benign": m.ID, "result": "does not apply to the current tree (skipped)", "detail": trunc(string(out), 200)})
+				return
+			}
+			if m.Kind != "patch" {
+				after, _ := os.ReadFile(filepath.Join(scratch, m.File))
+				if string(before) == string(after) {
+					res = append(res, map[string]interface{}{"benign": m.ID, "result": "does not apply to the current tree (skipped)"})
+					return
+				}
+			}
+			cmd := exec.Command(self, "check", "-tier", "quick", opts.prop)
+			cmd.Env = append(os.Environ(), "VERIF_REPO="+scratch, "VERIF_DIR="+verifDir, "VERIF_WORK_SUFFIX=.benign", "VERIF_NO_EVIDENCE=1")
+			var buf bytes.Buffer
+			cmd.Stdout, cmd.Stderr = &buf, &buf
+			_ = cmd.Run()
+			code := cmd.ProcessState.ExitCode()
+			r := map[string]interface{}{"benign": m.ID, "summary": m.Summary, "exit": code}
+			if code != 0 {
+				r["result"] = "FALSE ALARM"
+				if firstErr == nil {
+					firstErr = fmt.Errorf("self-test: property-preserving rewrite %s makes the %s check report a violation", m.ID, opts.prop)
+				}
+			} else {
+				r["result"] = "quiet"
+			}
+			res = append(res, r)
+		}()
+	}
+	return res, firstErr
+}
